@@ -17,6 +17,7 @@ RULE = ("each case takes a structure (repository proteins with their ligands and
         "(structure digest, pose)."
         " Sweeps also require the disulfide itself (both cysteines bridged) at every offset.")
 RULE = RULE + ' Round 8: the written determinant tables of the two frames list the same rows, and the same partners inside a cell, in the same order.'
+RULE = RULE + ' Rounds 10-12: a planar group turned into a coordinate plane; several coupled ligand systems under common charge centres; a translation that puts a built hydrogen on coordinate zero; library ligands (iodomethane, sulfate, five-ring ...), also axis-aligned and with records in any order; the order clause of the written table applies to rows with equal printed values.'
 ASSUMPTIONS = ["hetero groups are excluded from tiers 2 and 3, as the statement says",
                "a group whose centre has a heavy atom within 1e-6 A^2 of a cut-off sphere is tie-sensitive and not judged"]
 TIMEOUT = {"quick": 2400, "thorough": 14400}
